@@ -160,7 +160,10 @@ def pumps_of(pattern):
     return out
 
 
-SUFFIXES = ['', '\x00', '!', "\\"]
+# what follows the pump decides whether the rule's tail (a look-ahead, a word boundary, a closing delimiter) can still
+# match: nothing, a control character, punctuation, a backslash, and a letter / underscore / digit / blank (the rules that
+# end in (?!\w), \b or (?![_A-Z]) fail on a word character and then try every other way of dividing the pump)
+SUFFIXES = ['', '\x00', '!', "\\", 'a', '_', ' ', '9']
 
 
 def _tok_time(text):
